@@ -1985,6 +1985,56 @@ func ruleAggrKind(p *Prog, r *Result) {
 			})
 		}
 		r.floor("integer comparisons of an accumulator with its argument", ncmp, 2)
+		// ... and every value counts: between reading the argument as a number and the test `is this the first value`
+		// no way leads out of Update. (The reader answers 0 for what it cannot read - and for the integer 0: a guard
+		// that skips `what is not a number` by that answer drops the zeros.)
+		nskip := 0
+		for _, fn := range p.Funcs {
+			if fn.Name() != "Update" || fn.Signature.Recv() == nil || len(fn.Blocks) == 0 {
+				continue
+			}
+			var conv2 ssa.Instruction
+			allInstrs(fn, func(in ssa.Instruction) {
+				if c, ok := in.(*ssa.Call); ok && c.Call.StaticCallee() == conv && conv2 == nil {
+					conv2 = in
+				}
+			})
+			if conv2 == nil {
+				continue
+			}
+			var firstTest *ssa.BasicBlock
+			for _, b := range fn.Blocks {
+				f := ifOf(b)
+				if f == nil {
+					continue
+				}
+				v := f.Cond
+				if u, ok := v.(*ssa.UnOp); ok && u.Op == token.NOT {
+					v = u.X
+				}
+				if _, fl, base, ok := loadedField(v); ok && base == ssa.Value(fn.Params[0]) && fl != "" {
+					if bt, isB := v.Type().Underlying().(*types.Basic); isB && bt.Kind() == types.Bool && firstTest == nil && conv2.Block().Dominates(b) {
+						firstTest = b
+					}
+				}
+			}
+			if firstTest == nil {
+				continue
+			}
+			nskip++
+			early := ""
+			for _, b := range fn.Blocks {
+				ret := retOf(b)
+				if ret == nil || !conv2.Block().Dominates(b) || b == conv2.Block() {
+					continue
+				}
+				if !firstTest.Dominates(b) {
+					early = p.InstrPos(ret)
+				}
+			}
+			r.add(early == "", p.FName(fn)+"|every-value", p.Pos(fn.Pos()), firstNonEmpty(map[bool]string{true: "Update returns at " + early + " after reading the argument but before the test for the first value: some values are skipped"}[early != ""], "every value read reaches the accumulator"))
+		}
+		r.note("accumulators_with_a_first_value_flag", nskip)
 	}
 	r.floor("accumulator Complete methods", n, 6)
 }
@@ -2284,6 +2334,63 @@ func ruleInitReset(p *Prog, r *Result) {
 		}
 	}
 	r.floor("plan fields written by Next/Batch", n, 15)
+	// ... and a plan with a child initialises the child whenever its own Init succeeds: the child holds the cursor,
+	// and `nothing was read yet` (counters at zero) is also the state after a run that found no rows, so an Init that
+	// returns early on it leaves an exhausted cursor in place
+	nChild := 0
+	for _, fn := range p.Funcs {
+		if fn.Name() != "Init" || fn.Signature.Recv() == nil || len(fn.Blocks) == 0 {
+			continue
+		}
+		rt := namedOf(deref(fn.Signature.Recv().Type()))
+		if rt == nil {
+			continue
+		}
+		st, ok := rt.Underlying().(*types.Struct)
+		if !ok {
+			continue
+		}
+		childField := ""
+		for i := 0; i < st.NumFields(); i++ {
+			tn := typeName(st.Field(i).Type())
+			if (tn == "Plan" || tn == "FinalPlan") && st.Field(i).Name() != "" {
+				if _, isI := st.Field(i).Type().Underlying().(*types.Interface); isI {
+					childField = st.Field(i).Name()
+				}
+			}
+		}
+		if childField == "" {
+			continue
+		}
+		var inits []ssa.Instruction
+		allInstrs(fn, func(in ssa.Instruction) {
+			if c, ok := in.(*ssa.Call); ok && c.Call.IsInvoke() && c.Call.Method.Name() == "Init" && p.derivesFromField(c.Call.Value, rt.Obj().Name(), childField, traceOpts{}) {
+				inits = append(inits, in)
+			}
+		})
+		if len(inits) == 0 {
+			continue // a plan that leaves the child's initialisation to its builder
+		}
+		nChild++
+		bad := ""
+		for _, b := range fn.Blocks {
+			ret := retOf(b)
+			if ret == nil || len(ret.Results) == 0 || !isNilConst(retVal(ret, len(ret.Results)-1)) {
+				continue
+			}
+			dom := false
+			for _, ci := range inits {
+				if instrDominates(ci, ret) {
+					dom = true
+				}
+			}
+			if !dom {
+				bad = p.InstrPos(ret)
+			}
+		}
+		r.add(bad == "", rt.Obj().Name()+".Init|child-init", p.Pos(fn.Pos()), firstNonEmpty(map[bool]string{true: "Init can report success at " + bad + " without having initialised its child plan: the child keeps the cursor of the previous run"}[bad != ""], "every successful return of Init follows the initialisation of the child plan"))
+	}
+	r.note("plans_initialising_a_child", nChild)
 }
 
 // ---------------- CHECKORDER ----------------
@@ -2467,11 +2574,22 @@ func ruleCheckOrder(p *Prog, r *Result) {
 						}
 					}
 				}
+				isWalk := (ci.Common().IsInvoke() && ci.Common().Method.Name() == "Walk") || (ci.Common().StaticCallee() != nil && ci.Common().StaticCallee().Name() == "Walk")
 				for _, g := range callees {
 					if !p.InPkg(g) {
 						continue
 					}
-					if reachesStatic(g, "tryRewriteExpr") {
+					// the names are resolved at every depth: through a Walk over the field, or a function that calls
+					// itself (the type of `a + 'x' + 'y'` hangs on a name two operators down)
+					recursive := false
+					for _, h := range p.staticClosure(g, 3, nil) {
+						allInstrs(h, func(x ssa.Instruction) {
+							if c, ok := x.(ssa.CallInstruction); ok && c.Common().StaticCallee() == g {
+								recursive = true
+							}
+						})
+					}
+					if reachesStatic(g, "tryRewriteExpr") && (isWalk || recursive) {
 						res = true
 					}
 					if reaches(g, "Check") || g.Name() == "Check" {
@@ -2510,6 +2628,28 @@ func ruleCheckOrder(p *Prog, r *Result) {
 		}
 		r.add(behind, fmt.Sprintf("(*SelectStmt).ValidateFields|resolve-first#%d", nChk), p.InstrPos(in), "a select field is type-checked only after a loop has resolved the names in all the fields (a field listed earlier may use one listed later)")
 	})
+	// ... and the types a plan announces for its columns are the types the fields were checked with: the sort picks
+	// its comparator from them and parses the text of a number group key back with them, so no FieldTypeList method
+	// writes a type constant of its own into the list
+	nFT := 0
+	for _, fn := range p.Funcs {
+		if fn.Name() != "FieldTypeList" || fn.Signature.Recv() == nil || len(fn.Blocks) == 0 || !strings.Contains(typeName(deref(fn.Signature.Recv().Type())), "Aggregate") {
+			continue
+		}
+		nFT++
+		own := ""
+		allInstrs(fn, func(in ssa.Instruction) {
+			st, ok := in.(*ssa.Store)
+			if !ok || typeName(st.Val.Type()) != "Type" {
+				return
+			}
+			if _, isC := st.Val.(*ssa.Const); isC {
+				own = p.InstrPos(in)
+			}
+		})
+		r.add(own == "", p.FName(fn)+"|as-checked", p.Pos(fn.Pos()), firstNonEmpty(map[bool]string{true: "a type constant is written into the announced list at " + own}[own != ""], "the announced column types are the checked ones"))
+	}
+	r.floor("FieldTypeList methods of aggregate plans", nFT, 1)
 }
 
 // ---------------- NAMEOWNER ----------------
@@ -2695,6 +2835,84 @@ func ruleCmpMixed(p *Prog, r *Result) {
 	}
 	tpParam, lp, rp := fn.Params[1], fn.Params[2], fn.Params[3]
 	tstr, _ := p.constOf("TSTR")
+	// numbers that arrive as text under the declared type Number (the aggregate plan hands out number group keys as
+	// their text) reach the comparator that two integer cells reach: compared byte-wise, 10 sorts before 9
+	{
+		calleeOf := func(lk, rk string) (*ssa.Function, string) {
+			as := &assumption{p: p}
+			as.leaf = func(f *ssa.Function, v ssa.Value, bound map[*ssa.Parameter]string) (aval, bool) {
+				if f == fn && v == ssa.Value(tpParam) {
+					return aval{kind: 1, i: tnum}, true
+				}
+				if pa, ok := v.(*ssa.Parameter); ok && bound[pa] == "tp" {
+					return aval{kind: 1, i: tnum}, true
+				}
+				if bo, ok := v.(*ssa.BinOp); ok && (bo.Op == token.EQL || bo.Op == token.NEQ) {
+					isTO := func(x ssa.Value) bool {
+						c, ok := x.(*ssa.Call)
+						return ok && p.calleeName(&c.Call) == "reflect.TypeOf"
+					}
+					if isTO(bo.X) && isTO(bo.Y) {
+						if bo.Op == token.EQL {
+							return aval{kind: 2, b: abTrue}, true
+						}
+						return aval{kind: 2, b: abFalse}, true
+					}
+				}
+				return aval{}, false
+			}
+			as.typeTest = func(f *ssa.Function, ta *ssa.TypeAssert, bound map[*ssa.Parameter]string) (abool, bool) {
+				pa, ok := stripConv(ta.X).(*ssa.Parameter)
+				if !ok || bound[pa] == "" {
+					return abBoth, false
+				}
+				switch bound[pa] {
+				case "int":
+					if bt, isB := ta.AssertedType.(*types.Basic); isB && bt.Kind() == types.Int64 {
+						return abTrue, true
+					}
+				case "bytes":
+					if sl, isS := ta.AssertedType.(*types.Slice); isS {
+						if bt, isB := sl.Elem().(*types.Basic); isB && bt.Kind() == types.Byte {
+							return abTrue, true
+						}
+					}
+				}
+				return abFalse, true
+			}
+			as.bind = func(f *ssa.Function, arg ssa.Value, bound map[*ssa.Parameter]string) string {
+				if pa, ok := stripConv(arg).(*ssa.Parameter); ok {
+					return bound[pa]
+				}
+				return ""
+			}
+			res := as.run(fn, map[*ssa.Parameter]string{lp: lk, rp: rk, tpParam: "tp"})
+			var callee *ssa.Function
+			where := ""
+			for _, ret := range res.rets {
+				if len(ret.Results) != 1 {
+					continue
+				}
+				if c, ok := retVal(ret, 0).(*ssa.Call); ok {
+					if g := c.Call.StaticCallee(); g != nil {
+						if callee != nil && callee != g {
+							return nil, "several comparators are reachable: " + p.FName(callee) + ", " + p.FName(g)
+						}
+						callee, where = g, p.InstrPos(c)
+					}
+				}
+			}
+			return callee, where
+		}
+		ci, _ := calleeOf("int", "int")
+		ct, wt := calleeOf("bytes", "bytes")
+		okText := ci != nil && ct == ci
+		msg := "number texts under the declared type Number reach the number comparator"
+		if !okText {
+			msg = fmt.Sprintf("two number texts under the declared type Number reach %s (%s), two integers reach %s", p.FName(ct), wt, p.FName(ci))
+		}
+		r.add(okText, p.FName(fn)+"|left=text,right=text|declared=TNUMBER", p.Pos(fn.Pos()), msg)
+	}
 	// declared: the type the column was declared with. A field access (json(value)['n'], list[1]) is declared as
 	// text whatever it yields, so numbers also arrive under the declared type text - and must still be compared
 	for _, declared := range []struct {
@@ -3070,6 +3288,7 @@ func ruleFloatLit(p *Prog, r *Result) {
 	}
 	goodFormatter := func(f *ssa.Function) bool {
 		plain, dotTest, dotAdd := false, false, false
+		lossyToo := false
 		allInstrs(f, func(in ssa.Instruction) {
 			switch x := in.(type) {
 			case *ssa.Call:
@@ -3080,6 +3299,10 @@ func ruleFloatLit(p *Prog, r *Result) {
 					pr, ok2 := constInt(x.Call.Args[n-2])
 					if ok1 && ok2 && fm == 'f' && pr == -1 {
 						plain = true
+					} else {
+						// any other rendering in the same formatter (a capped number of decimals, an exponent) is a
+						// text that need not read back as the value the node carries
+						lossyToo = true
 					}
 				case "strings.Contains", "strings.ContainsRune", "strings.IndexByte", "strings.ContainsAny", "strings.IndexRune":
 					if len(x.Call.Args) == 2 {
@@ -3099,7 +3322,7 @@ func ruleFloatLit(p *Prog, r *Result) {
 				}
 			}
 		})
-		return plain && dotTest && dotAdd
+		return plain && dotTest && dotAdd && !lossyToo
 	}
 	n := 0
 	for _, fn := range p.methodsOf(ot) {
@@ -3258,7 +3481,27 @@ func ruleFloatLit(p *Prog, r *Result) {
 					}
 				}
 			}
-			if isDiv && isZero {
+			// ... whichever way the right operand became a literal: the test does not sit inside an arm of the switch
+			// on the right operand's node kind (a divisor folded from a function call is a literal too)
+			inArm := false
+			for _, b := range fold.Blocks {
+				f := ifOf(b)
+				if f == nil {
+					continue
+				}
+				ex, ok := f.Cond.(*ssa.Extract)
+				if !ok {
+					continue
+				}
+				ta, ok := ex.Tuple.(*ssa.TypeAssert)
+				if !ok || !p.derivesFromField(ta.X, "BinaryOpExpr", "Right", traceOpts{}) {
+					continue
+				}
+				if edgeDominates(b, 0, in.Block()) {
+					inArm = true
+				}
+			}
+			if isDiv && isZero && !inArm {
 				guarded = true
 			}
 		})
@@ -4020,4 +4263,61 @@ func ruleAliasWalk(p *Prog, r *Result) {
 		})
 	}
 	r.floor("functions following alias references, and Walk callers", n, 4)
+}
+
+// ---------------- STMTKEEP ----------------
+
+func init() {
+	register("STMTKEEP", "what the parser accepted is what is planned: the element lists of a parsed statement (the pairs of a PUT, the keys of a REMOVE, the fields of a SELECT) are stored only where the statement is built - a later stage that drops or reorders elements (a PUT pair whose key is written again further on, say) plans another statement than the one that was checked, and an element that is dropped is never evaluated, so its failure no longer stops the statement; and a scan plan's constructor keeps the bounds it is given (nil is an open bound, the empty slice is the empty key)", ruleStmtKeep)
+}
+
+func ruleStmtKeep(p *Prog, r *Result) {
+	lists := map[string]string{"PutStmt": "KVPairs", "RemoveStmt": "Keys", "SelectStmt": "Fields"}
+	n := 0
+	for _, fn := range p.Funcs {
+		allInstrs(fn, func(in ssa.Instruction) {
+			st, ok := in.(*ssa.Store)
+			if !ok {
+				return
+			}
+			o, f, base, ok := fieldOfAddr(st.Addr)
+			if !ok || o == nil || lists[o.Obj().Name()] != f {
+				return
+			}
+			n++
+			_, fresh := base.(*ssa.Alloc)
+			inParser := fn.Signature.Recv() != nil && typeName(deref(fn.Signature.Recv().Type())) == "Parser"
+			r.add(fresh || inParser, fmt.Sprintf("%s|%s.%s#%d", p.FName(fn), o.Obj().Name(), f, n), p.InstrPos(in), "the element list of a statement is written where the statement is built (a fresh node, or the parser)")
+		})
+	}
+	r.floor("stores into statement element lists", n, 3)
+	// constructors of the scan plans store their byte-string parameters as they are
+	nc := 0
+	for _, cn := range []string{"NewRangeScanPlan", "NewPrefixScanPlan"} {
+		fn := p.Func(cn)
+		if fn == nil {
+			continue
+		}
+		allInstrs(fn, func(in ssa.Instruction) {
+			st, ok := in.(*ssa.Store)
+			if !ok {
+				return
+			}
+			_, f, base, ok := fieldOfAddr(st.Addr)
+			if !ok || (f != "Start" && f != "End" && f != "Prefix") {
+				return
+			}
+			if _, fresh := base.(*ssa.Alloc); !fresh {
+				return
+			}
+			nc++
+			v := st.Val
+			if cv, ok := v.(*ssa.Convert); ok {
+				v = cv.X
+			}
+			_, direct := v.(*ssa.Parameter)
+			r.add(direct, cn+"|"+f+"|as-given", p.InstrPos(in), "the constructor keeps the bound it is given (it does not turn an empty bound into an open one or the reverse)")
+		})
+	}
+	r.floor("bounds stored by scan plan constructors", nc, 3)
 }
